@@ -25,7 +25,8 @@ func init() {
 			"D4 every list mutator commits its new storage as its last effect (a panicking call leaves the list unchanged), array writes are dominated by their normaliser calls; " +
 			"D5 no internal caller passes a definitely-zero ordinal." +
 			" Also: ContainsAny/ContainsAll of an empty operand are false/true (evaluated for inputs on which no loop body runs, helpers interpreted with their constant arguments); receiver-aliased operands are read before anything of the receiver changes; in the array no bounds check is reachable after a write; the list's backing array is made by the constructor, never adopted from an argument; reversal swaps mirror positions exactly while the lower one is below the upper one." +
-			" Round 7: a size computed in unsigned arithmetic is not decremented where it may be zero; an index guard that compares the index with the length excludes the length itself; element values are not compared with Go's == through empty interfaces (panics for uncomparable types); RemoveAll clears on every path that is not selected by an emptiness test.",
+			" Round 7: a size computed in unsigned arithmetic is not decremented where it may be zero; an index guard that compares the index with the length excludes the length itself; element values are not compared with Go's == through empty interfaces (panics for uncomparable types); RemoveAll clears on every path that is not selected by an emptiness test." +
+			" Rounds 8-9: readers assign no field; no exported method computes with a caller-given unsigned slot before a condition on it; slices.Clone of an argument is not a collection's storage; membership is not decided by comparing sizes; consecutive copies tile their destination.",
 		NotDecided: "that the rebuild loops place every element at the right position (loop-carried arithmetic), range semantics beyond the two normaliser calls, equality semantics of GetIndex (C08), sort/reverse (C09).",
 		Run:        runC01,
 	})
